@@ -380,6 +380,42 @@ Proof.
   - rewrite Hm, !byte_len_app. lia.
 Qed.
 
+Lemma slice_between_exact t e : tok_in buf t -> tok_in buf e -> tend t <= tstart e ->
+  exists a mid b', buf = a ++ tspell t ++ mid ++ tspell e ++ b' /\ tstart t = byte_len a /\
+                   slice_bytes buf (tstart t) (tstart e) = Some (tspell t ++ mid).
+Proof.
+  intros (a & b & E & [W _] & _) (a' & b' & E' & [W' _] & _) L. unfold tend in L. rewrite W, W' in *.
+  assert (Hpre : exists m, a' = (a ++ tspell t) ++ m).
+  { apply (app_prefix_by_len (a ++ tspell t) b a' (tspell e ++ b')).
+    - rewrite <- app_assoc. congruence.
+    - rewrite byte_len_app. lia. }
+  destruct Hpre as [m Hm]. exists a, m, b'. split; [|split; [reflexivity|]].
+  - rewrite E'. rewrite Hm. rewrite <- !app_assoc. reflexivity.
+  - unfold slice_bytes.
+    destruct (byte_len a' <? byte_len a) eqn:El; [apply N.ltb_lt in El; rewrite Hm, !byte_len_app in El; lia|].
+    rewrite E at 1. rewrite drop_bytes_app.
+    assert (Eb : tspell t ++ b = (tspell t ++ m) ++ tspell e ++ b').
+    { apply (app_inv_head a). rewrite <- E. rewrite E'. rewrite Hm. rewrite <- !app_assoc. reflexivity. }
+    rewrite Eb. replace (byte_len a' - byte_len a) with (byte_len (tspell t ++ m)).
+    + apply take_bytes_app.
+    + rewrite Hm, !byte_len_app. lia.
+Qed.
+
+Lemma drop_until_newline_stops : forall n s, (length (toks s) <= n)%nat ->
+  match current (drop_until_newline s n) with Some e => tid e = TNewline | None => True end.
+Proof.
+  induction n as [|n IH]; intros s Hn; cbn [drop_until_newline].
+  - unfold current. destruct (toks s); [exact I|cbn in Hn; lia].
+  - destruct (current s) as [t|] eqn:Ec; [|rewrite Ec; exact I].
+    assert (Hadv : match current (match advance s with Some (_, s') => drop_until_newline s' n | None => s end) with
+                   | Some e => tid e = TNewline | None => True end).
+    { destruct (advance s) as [[t' s']|] eqn:Ea.
+      - apply IH. unfold advance in Ea. destruct (toks s) as [|pt r] eqn:Et; [discriminate|].
+        injection Ea as _ <-. cbn [toks]. cbn in Hn. lia.
+      - unfold advance in Ea. unfold current in Ec. destruct (toks s); discriminate. }
+    destruct (tid t) eqn:Et; try exact Hadv. rewrite Ec. exact Et.
+Qed.
+
 Lemma drop_until_newline_ok : forall fuel s, SI s ->
   SI (drop_until_newline s fuel) /\ exists p, toks s = p ++ toks (drop_until_newline s fuel).
 Proof.
@@ -425,6 +461,48 @@ Proof.
     destruct (strip_prefix (lit " ") mid); [apply ok_ok; auto; exact I|apply fail_ok; auto].
   - rewrite Hb. rewrite Hdrop. rewrite strip_prefix_app.
     destruct (strip_prefix (lit " ") b); [apply ok_ok; auto; exact I|apply fail_ok; auto].
+Qed.
+
+(** C11: a poetic string literal is the exact text of the source after `says` and one space, up to
+    the next line-break token (or the end of the source) *)
+Theorem poetic_string_exact says s0 s txt s1 :
+  SI s0 -> SI s -> (exists pt, toks s0 = pt :: toks s /\ pt_tok pt = says) ->
+  parse_poetic_string_rhs buf says s = Ok (txt, s1) ->
+  exists a rest, buf = a ++ tspell says ++ [32] ++ txt ++ rest /\ tstart says = byte_len a /\
+    s1 = drop_until_newline s (length (toks s)) /\
+    match current s1 with
+    | Some e => tid e = TNewline /\ exists b', rest = tspell e ++ b'
+    | None => rest = []
+    end.
+Proof.
+  intros (p0 & Hp0 & _) HS (pt & E0 & Esays) H. unfold parse_poetic_string_rhs in H.
+  destruct (drop_until_newline_ok (length (toks s)) s HS) as (S1 & p1 & Hp1).
+  pose proof (drop_until_newline_stops (length (toks s)) s (Nat.le_refl _)) as Hstop.
+  set (sd := drop_until_newline s (length (toks s))) in *.
+  assert (Hsays : tok_in buf says).
+  { destruct all_ok as [_ F]. rewrite Forall_forall in F. rewrite <- Esays. apply F. rewrite Hp0, E0.
+    apply in_or_app. right. left. reflexivity. }
+  assert (Hafter : Forall (fun x => tok_before says (pt_tok x)) (toks s)).
+  { destruct all_ok as [Hs _]. rewrite Hp0, E0 in Hs. rewrite <- Esays. eapply sorted_after; eauto. }
+  destruct (current sd) as [e|] eqn:Ec.
+  - destruct (current_in sd e S1 Ec) as [_ He].
+    assert (Hbe : tok_before says e).
+    { rewrite Forall_forall in Hafter. unfold current in Ec. destruct (toks sd) as [|pe r] eqn:Et; [discriminate|].
+      injection Ec as <-. apply Hafter. rewrite Hp1. apply in_or_app. right. left. reflexivity. }
+    destruct (slice_between_exact says e Hsays He Hbe) as (a & mid & b' & Eb & Ws & Hsl).
+    destruct (boundary_ok buf (tstart says) && boundary_ok buf (tstart e)); [|discriminate].
+    rewrite Hsl in H. rewrite strip_prefix_app in H.
+    destruct (strip_prefix (lit " ") mid) as [r|] eqn:Esp; [|discriminate]. injection H as <- <-.
+    apply strip_prefix_some in Esp. exists a, (tspell e ++ b'). rewrite Ec. repeat split; auto.
+    + rewrite Eb, Esp. cbn [app]. rewrite <- ?app_assoc. reflexivity.
+    + exists b'. reflexivity.
+  - destruct (slice_to_end says Hsays) as (Hb & b & Hdrop).
+    destruct Hsays as (a & b0 & Eb & [Ws _] & _).
+    rewrite Hb, Hdrop in H. rewrite strip_prefix_app in H.
+    destruct (strip_prefix (lit " ") b) as [r|] eqn:Esp; [|discriminate]. injection H as <- <-.
+    apply strip_prefix_some in Esp. exists a, []. rewrite Ec. repeat split; auto.
+    assert (b0 = b). { rewrite Eb, Ws in Hdrop. rewrite drop_bytes_app in Hdrop. apply app_inv_head in Hdrop. exact Hdrop. }
+    subst b0. rewrite Eb, Esp. cbn [app]. rewrite app_nil_r. reflexivity.
 Qed.
 
 (** * Operator tables are total on the tokens that select them *)
